@@ -49,6 +49,11 @@ const TARGETS: &[Target] = &[
     Target { file: "ssz/src/decode.rs", imp: "SszDecoderBuilder", name: "finalize", coq: "builder_finalize" },
     Target { file: "ssz/src/encode.rs", imp: "SszEncoder", name: "append_parameterized", coq: "encoder_append" },
     Target { file: "ssz/src/encode.rs", imp: "SszEncoder", name: "finalize", coq: "encoder_finalize" },
+    Target { file: "ssz/src/bitfield.rs", imp: "Bitfield", name: "len", coq: "bitfield_len" },
+    Target { file: "ssz/src/bitfield.rs", imp: "Bitfield", name: "is_empty", coq: "bitfield_is_empty" },
+    Target { file: "ssz/src/bitfield.rs", imp: "Bitfield", name: "get", coq: "bitfield_get" },
+    Target { file: "ssz/src/bitfield.rs", imp: "Bitfield", name: "set", coq: "bitfield_set" },
+    Target { file: "ssz/src/bitfield.rs", imp: "Bitfield", name: "from_raw_bytes", coq: "bitfield_from_raw_bytes" },
     Target { file: "ssz/src/legacy.rs", imp: "", name: "encode_four_byte_union_selector", coq: "encode_four_byte_union_selector" },
     Target { file: "ssz/src/legacy.rs", imp: "", name: "read_four_byte_union_selector", coq: "read_four_byte_union_selector" },
 ];
@@ -58,6 +63,7 @@ const RECORDS: &[(&str, &str)] = &[
     ("ssz/src/decode.rs", "Offset"),
     ("ssz/src/decode.rs", "SszDecoderBuilder"),
     ("ssz/src/encode.rs", "SszEncoder"),
+    ("ssz/src/bitfield.rs", "Bitfield"),
 ];
 
 /// integer constants translated to definitions: (file, name)
@@ -87,6 +93,10 @@ struct Cx {
     res_fns: HashMap<String, String>,
     /// closure-typed parameters: calling them on a buffer returns the new buffer
     fn_params: Vec<String>,
+    /// `let x = self.f.get_mut(i)..?`: x aliases self.f[i]  (variable -> (field, index term))
+    aliases: HashMap<String, (String, String)>,
+    /// translating an operand of a u8 bit operation: `!` is bitwise
+    u8ctx: bool,
     notes: Vec<String>,
 }
 
@@ -116,7 +126,7 @@ fn int_lit(e: &Expr) -> Option<u128> {
 
 impl Cx {
     fn new(records: HashMap<String, Vec<String>>, res_fns: HashMap<String, String>) -> Self {
-        Cx { fresh: 0, binds: vec![], self_rec: None, records, res_fns, fn_params: vec![], notes: vec![] }
+        Cx { fresh: 0, binds: vec![], self_rec: None, records, res_fns, fn_params: vec![], aliases: HashMap::new(), u8ctx: false, notes: vec![] }
     }
 
     fn var(&mut self, hint: &str) -> String {
@@ -219,7 +229,11 @@ impl Cx {
                 UnOp::Deref(_) => self.expr(&u.expr),
                 UnOp::Not(_) => {
                     let v = self.val(&u.expr)?;
-                    Ok((format!("(negb {})", v), Pure))
+                    if self.u8ctx {
+                        Ok((format!("(not8 {})", v), Pure))
+                    } else {
+                        Ok((format!("(negb {})", v), Pure))
+                    }
                 }
                 _ => Err(format!("unsupported unary operator: {}", tokens(e))),
             },
@@ -266,13 +280,39 @@ impl Cx {
                         let l = self.val(&b.left)?;
                         let from = self.binds.len();
                         let r = self.val(&b.right)?;
+                        let is_and = matches!(b.op, BinOp::And(_));
                         if self.binds.len() != from {
-                            return Err(format!("right operand of a lazy boolean operator needs the monad: {}", tokens(e)));
+                            // the right operand can panic: it is evaluated only when needed
+                            let rhs = self.wrap(from, format!("Ok {}", paren(&r)));
+                            return Ok((if is_and {
+                                format!("(if {} then\n{}\nelse Ok false)", l, rhs)
+                            } else {
+                                format!("(if {} then Ok true else\n{})", l, rhs)
+                            }, Comp));
                         }
-                        let op = if matches!(b.op, BinOp::And(_)) { "&&" } else { "||" };
+                        let op = if is_and { "&&" } else { "||" };
                         return Ok((format!("({} {} {})", l, op, r), Pure));
                     }
                     _ => {}
+                }
+                if matches!(b.op, BinOp::BitAnd(_) | BinOp::BitOr(_) | BinOp::Shl(_)) {
+                    let saved = self.u8ctx;
+                    self.u8ctx = true;
+                    let l = self.val(&b.left);
+                    let r = self.val(&b.right);
+                    self.u8ctx = saved;
+                    let (l, r) = (l?, r?);
+                    return Ok(match b.op {
+                        BinOp::BitAnd(_) => (format!("(N.land {} {})", l, r), Pure),
+                        BinOp::BitOr(_) => (format!("(N.lor {} {})", l, r), Pure),
+                        _ => {
+                            // u8 shift: the amount must visibly be below 8
+                            if !tokens(&b.right).replace(' ', "").ends_with("%8)") && !tokens(&b.right).replace(' ', "").ends_with("%8") {
+                                return Err(format!("shift by an amount that is not `_ % 8`: {}", tokens(e)));
+                            }
+                            (format!("(shl8 {} {})", l, r), Pure)
+                        }
+                    });
                 }
                 let l = self.val(&b.left)?;
                 let r = self.val(&b.right)?;
@@ -338,6 +378,9 @@ impl Cx {
                 let mut given: HashMap<String, String> = HashMap::new();
                 for f in &s.fields {
                     if let Member::Named(id) = &f.member {
+                        if !fields.contains(&id.to_string()) {
+                            continue; // PhantomData
+                        }
                         let v = self.val(&f.expr)?;
                         given.insert(id.to_string(), v);
                     }
@@ -502,6 +545,10 @@ impl Cx {
                 }
             },
             "expect" | "unwrap" => (format!("unwrap_or_panic {}", r), Comp),
+            "overflowing_shr" => {
+                let a = arg(self, 0)?;
+                (format!("(overflowing_shr8 {} {}, tt)", r, a), Pure)
+            }
             _ => return Err(format!("unsupported method .{}(): {}", name, tokens(m))),
         })
     }
@@ -655,13 +702,23 @@ impl Cx {
                     }
                 }
                 let name = self.pat_name(&l.pat)?;
+                if let Some((field, idx)) = get_mut_target(&init.expr) {
+                    // let x = self.f.get_mut(i).ok_or(E)?;   x aliases self.f[i]
+                    let rec = self.self_rec.clone().ok_or("get_mut outside an impl")?;
+                    let i = self.val(&idx)?;
+                    let cur = format!("({} self)", self.field_proj(&rec, &field));
+                    let v = self.bind(format!("ok_or (get_at {} {})", cur, i), "q");
+                    self.aliases.insert(name.clone(), (field, i));
+                    let body = self.block(rest, k)?;
+                    return Ok(self.wrap(from, format!("let {} := {} in\n{}", name, v, body)));
+                }
                 let v = self.val(&init.expr)?;
                 let body = self.block(rest, k)?;
                 format!("let {} := {} in\n{}", name, v, body)
             }
             Stmt::Expr(e, semi) => {
                 let is_mutation = matches!(e, Expr::Assign(_) | Expr::ForLoop(_))
-                    || matches!(e, Expr::Binary(b) if matches!(b.op, BinOp::AddAssign(_)));
+                    || matches!(e, Expr::Binary(b) if matches!(b.op, BinOp::AddAssign(_) | BinOp::BitOrAssign(_) | BinOp::BitAndAssign(_)));
                 if rest.is_empty() && semi.is_none() && !is_mutation {
                     return self.tail(e, k);
                 }
@@ -722,6 +779,28 @@ impl Cx {
                     }
                 }
                 Err(format!("unsupported assignment: {}", tokens(e)))
+            }
+            // *x |= e;  *x &= e;   where x aliases self.f[i]
+            Expr::Binary(b) if matches!(b.op, BinOp::BitOrAssign(_) | BinOp::BitAndAssign(_)) => {
+                let target = match &*b.left {
+                    Expr::Unary(u) if matches!(u.op, UnOp::Deref(_)) => match &*u.expr {
+                        Expr::Path(p) => path_last(&p.path),
+                        _ => return Err(format!("unsupported compound assignment target: {}", tokens(e))),
+                    },
+                    _ => return Err(format!("unsupported compound assignment target: {}", tokens(e))),
+                };
+                let (field, idx) = self.aliases.get(&target).cloned().ok_or_else(|| format!("{} is not a known alias of an element of self", target))?;
+                let saved = self.u8ctx;
+                self.u8ctx = true;
+                let r = self.val(&b.right);
+                self.u8ctx = saved;
+                let r = r?;
+                let op = if matches!(b.op, BinOp::BitOrAssign(_)) { "N.lor" } else { "N.land" };
+                let rec = self.self_rec.clone().unwrap();
+                let cur = format!("({} self)", self.field_proj(&rec, &field));
+                let upd = self.set_self(&field, &format!("upd_at {} {} ({} {} {})", cur, idx, op, coq_ident(&target), r))?;
+                let body = self.block(rest, k)?;
+                Ok(format!("let self := {} in\n{}", upd, body))
             }
             // self.f += e;
             Expr::Binary(b) if matches!(b.op, BinOp::AddAssign(_)) => {
@@ -813,6 +892,20 @@ impl Cx {
     }
 }
 
+/// `self.f.get_mut(i).ok_or(E)?`  ->  (f, i)
+fn get_mut_target(e: &Expr) -> Option<(String, Expr)> {
+    let e = match e { Expr::Try(t) => &*t.expr, _ => return None };
+    let m = match e { Expr::MethodCall(m) if m.method == "ok_or" => m, _ => return None };
+    let g = match &*m.receiver { Expr::MethodCall(g) if g.method == "get_mut" => g, _ => return None };
+    match &*g.receiver {
+        Expr::Field(f) => match (&*f.base, &f.member) {
+            (Expr::Path(p), Member::Named(id)) if path_str(&p.path) == "self" => Some((id.to_string(), g.args[0].clone())),
+            _ => None,
+        },
+        _ => None,
+    }
+}
+
 fn array_len_of_pat(p: &Pat) -> Option<String> {
     if let Pat::Type(t) = p {
         if let Type::Array(a) = &*t.ty {
@@ -871,7 +964,7 @@ fn coq_type(t: &Type, records: &HashMap<String, Vec<String>>) -> R<String> {
     Ok(match s.as_str() {
         "usize" | "u8" | "u32" | "u64" => "N".into(),
         "bool" => "bool".into(),
-        "[u8]" | "Vec<u8>" => "bytes".into(),
+        "[u8]" | "Vec<u8>" | "SmallVec<[u8;SMALLVEC_LEN]>" => "bytes".into(),
         "SmallVec8<[u8]>" => "(list bytes)".into(),
         "Option<usize>" => "(option N)".into(),
         "UnionSelector" => "N".into(),
@@ -942,7 +1035,7 @@ fn main() {
             for it in &f.items {
                 if let Item::Struct(s) = it {
                     if s.ident == name {
-                        let fields: Vec<String> = s.fields.iter().filter_map(|f| f.ident.as_ref().map(|i| i.to_string())).collect();
+                        let fields: Vec<String> = s.fields.iter().filter(|f| !tokens(&f.ty).contains("PhantomData")).filter_map(|f| f.ident.as_ref().map(|i| i.to_string())).collect();
                         records.insert(name.to_string(), fields);
                     }
                 }
@@ -956,7 +1049,7 @@ fn main() {
                     if s.ident == name {
                         let mut fs = vec![];
                         let mut ok = true;
-                        for fld in &s.fields {
+                        for fld in s.fields.iter().filter(|f| !tokens(&f.ty).contains("PhantomData")) {
                             let fname = fld.ident.as_ref().unwrap().to_string();
                             match coq_type(&fld.ty, &records) {
                                 Ok(t) => fs.push((fname, t)),
